@@ -15,4 +15,5 @@ INVARIANT InvSliceSlice
 INVARIANT InvConvert
 INVARIANT InvSnapshotsRoundTrip
 INVARIANT InvInteractionsRoundTrip
+INVARIANT InvJsonRoundTrip
 CHECK_DEADLOCK FALSE
